@@ -367,8 +367,8 @@ def batches(rng, tier):
                 note="determinant, adjugate, A adj A, adj A A, inverse, identity for all 256 matrices, static and buffer-view storage")
     yield Batch("2x2-pairs", [f"pairs {m} {a}" for m in "sb" for a in range(256)], exhaustive=True,
                 note="all 65536 pairs: product, transposes, sum, difference, det(AB), det A, det B, ==")
-    yield Batch("2x2-triples-static", [f"trios s {a} {b}" for a in range(256) for b in range(256)], exhaustive=True,
-                note="all 256^3 triples: associativity and both distributive laws, static storage")
+    yield Batch("2x2-triples-static", [f"trios s {a} {b}" for a in (range(256) if thorough else range(rng.fork("tri").below(4), 256, 4)) for b in range(256)], exhaustive=thorough,
+                note="all 256^3 triples (quick: a seed-rotated quarter of the left operands, 64 x 256 x 256): associativity and both distributive laws, static storage")
     r = rng.fork("trios-b")
     if thorough:
         ops = [f"trios b {a} {b}" for a in range(256) for b in range(256)]
